@@ -134,4 +134,20 @@ def runIseq (kv : List (String × String)) : String := Id.run do
   let n := lprod rd
   return s!"DM={"x".intercalate (rd.map toString)} C1={hex (valDigest [1] n ws)} W1={hex (hashNats 0 (ws.map (·.1)))} N1={ws.length} R1={hex (hashNats 0 (sortDedup (ws.map (·.2))))}"
 
+/-- diagonal views `diag(A)` of an `n × n` tensor: `eval_s(i) = A(i,i)`, `eval(i)` gathers `inds[j] = (i+j)*N + (i+j)`,
+    consumer `trivial_assign`.  The offsets are those of a 1-D view of the flattened parent with first 0 and step `n+1`. -/
+def diagView (n : Nat) : View := ⟨.dyn1, [n * n], [⟨0, n + 1, n⟩]⟩
+
+def runDiag (kv : List (String × String)) : String := Id.run do
+  let some cfgName := getS kv "cfg" | return "bad-op"
+  let some cfg := Cfg.ofName cfgName | return "bad-op"
+  let some sz := getN kv "sz" | return "bad-op"
+  let some n := getN kv "n" | return "bad-op"
+  let V := cfg.native.lanes sz
+  let v := diagView n
+  let es := (List.range n).map v.evalS
+  let ev := (List.range (n + 1 - V)).flatMap (v.evalV V)
+  let c := v.trivialAssign V
+  return s!"V={V} SZ={n} ES={hex (hashToks 1 0 es)} EV={hex (hashToks 1 0 ev)} RDP={hex (hashNats 0 (sortDedup (es ++ ev)))} {consumerObs "1" [(1, 1)] n c} {consumerObs "2" [(1, 1)] n c}"
+
 end Fastor.Driver.ViewsCmd
